@@ -11,7 +11,9 @@ PID = 'C09'
 LEVEL = 'proof'
 RULE = ('scope/seq: nested with-programs (depth <= 6) over string / a/b shorthand / list / None / "" / invalid '
         '(bad identifier, empty component, non-string) entries with normal and raising exits, current_scope() '
-        'and scoped calls observed inside and after every block. scope/sched: 2-4 REAL threads, each running a '
+        'and scoped calls observed inside and after every block; block bodies also read and change the CONFIGURATION '
+        '(clear_config, the clear + parse_config reload idiom, bind_parameter, query_parameter, get_bindings, finalize, '
+        'unlock_config blocks): every op must start under the scope that the enclosing blocks of the program text compose. scope/sched: 2-4 REAL threads, each running a '
         'generated program of enter / exit / observe / scoped-call steps, stepped one step at a time by a central '
         'scheduler following a generated schedule (thorough: every interleaving of 2 threads x <= 4 steps). '
         'non-trivial(seq) = depth >= 3 with an invalid entry or a raising exit below depth 2; '
@@ -21,7 +23,8 @@ RULE = ('scope/seq: nested with-programs (depth <= 6) over string / a/b shorthan
         'one the thread\'s own entries and exits prescribe. scope/deferred (implementation only): 1-2 real threads building '
         'config_scope managers and entering them LATER (kept in a variable, handed to the other thread, a list entered through '
         'contextlib.ExitStack, used as a decorator and called under other scopes) next to ordinary blocks; every block runs under '
-        'compose(scope active in the entering thread at entry, argument). non-trivial(deferred) = at least one deferred entry.')
+        'compose(scope active in the entering thread at entry, argument); a thread may reload the configuration (clear_config + the same '
+        'bindings again) while blocks are open in it and in the other thread. non-trivial(deferred) = at least one deferred entry.')
 TRUSTED_BASE = c01.TRUSTED_BASE + [
     'thread half: model coq/Model/ScopeThreads.v (one stack per thread id); atomic steps are API calls '
     '(enter / exit / observe / call) — preemption inside a step is not modelled',
@@ -73,7 +76,61 @@ class SeqEngine(Engine):
                                 ['with', {'captured': 0, 'value': ['s1']}, [['with', 's3', [['with', {'captured': 1, 'value': ['s1']}, [['raise']]],
                                                                                            ['curscope']]], ['curscope']]],
                                 ['curscope']]],
+                ['curscope'], ['dumpcalls']]},
+            # configuration-state calls inside open blocks: the reload idiom (clear_config + parse_config) in a nested block ...
+            {'regs': [f], 'ops': [
+                ['bind', 'f.a', ['i', 1]], ['bind', 's1/f.a', ['i', 2]], ['bind', 's1/s2/f.a', ['i', 3]],
+                ['with', 's1', [['with', 's2', [['call', 'm.f', [], []], ['clear', False], ['curscope'],
+                                                ['pbind', 's1/s2/f.a', ['i', 4]], ['pbind', 'f.a', ['i', 5]], ['curscope'],
+                                                ['call', 'm.f', [], []], ['with', 's3', [['curscope'], ['call', 'm.f', [], []]]], ['curscope']]],
+                                ['curscope'], ['call', 'm.f', [], []]]],
+                ['curscope'], ['call', 'm.f', [], []], ['dumpcalls']]},
+            # ... in a block entered with a list and left by an exception; under finalize / unlock_config; with queries
+            {'regs': [f], 'ops': [
+                ['bind', 's1/s2/f.a', ['i', 2]],
+                ['with', 's1', [['with', ['s3'], [['clear', True], ['curscope'], ['bind', 's3/f.a', ['i', 6]], ['call', 'm.f', [], []], ['raise']]],
+                                ['curscope']]],
+                ['curscope'],
+                ['with', 's1/s2', [['finalize'], ['curscope'], ['locked'],
+                                   ['unlock', [['bind', 's1/s2/f.a', ['i', 7]], ['curscope'], ['clear', False], ['curscope'],
+                                               ['bindt', 's1', 'm.f', 'a', ['i', 8]]]],
+                                   ['curscope'], ['query', 's1/f.a'], ['getbindings', 'm.f', False, True], ['call', 'm.f', [], []],
+                                   ['with', None, [['dumpconfig'], ['clear', False], ['curscope'], ['query', 's1/f.a']]],
+                                   ['curscope']]],
                 ['curscope'], ['dumpcalls']]}]
+
+  def gen_state_ops(self, rng, regs, depth, encl):
+    """calls that read or change the CONFIGURATION (bindings, lock, constants-clearing) -- none of them is a scope entry or exit"""
+    def key():
+      c = rng.choice(regs)
+      return ginm.gen_scope(rng, 3), c['sel'], rng.choice(c['sig']['args'])
+
+    def bind():
+      sc, sel, p = key()
+      v = ['i', rng.randint(1, 9)]
+      r = rng.random()
+      if r < 0.4:
+        return ['bind', '/'.join(sc + [sel + '.' + p]), v]
+      if r < 0.8:
+        return ['pbind', '/'.join(sc + [sel + '.' + p]), v]
+      return ['bindt', '/'.join(sc), sel, p, v]
+    r = rng.random()
+    if r < 0.3:       # the reload idiom: clear, then install bindings again
+      return [['clear', rng.random() < 0.3]] + [bind() for _ in range(rng.randint(0, 3))]
+    if r < 0.5:
+      return [bind()]
+    if r < 0.6:
+      sc, sel, p = key()
+      return [['query', '/'.join(sc + [sel + '.' + p])]]          # raises when unbound: an exception exit of every open block
+    if r < 0.7:
+      return [['getbindings', rng.choice(regs)['sel'], False, rng.random() < 0.7]]
+    if r < 0.78:
+      return [rng.choice([['dumpconfig'], ['dumpoper'], ['locked']])]
+    if r < 0.88:
+      return [['finalize']]
+    if depth < 6:
+      return [['unlock', self.gen_body(rng, regs, depth + 1, encl)]]
+    return [['locked']]
 
   def gen_arg(self, rng):
     r = rng.random()
@@ -108,14 +165,17 @@ class SeqEngine(Engine):
           arg = self.gen_arg(rng)
         new, ok = compose(list(encl[-1]) if encl else [], arg['value'] if isinstance(arg, dict) and 'captured' in arg else 5 if isinstance(arg, dict) else arg)
         ops.append(['with', arg, self.gen_body(rng, regs, depth + 1, tuple(encl) + (tuple(new),)) if ok else self.gen_body(rng, regs, depth + 1, encl)])
-      elif r < 0.6:
+      elif r < 0.55:
         ops.append(['curscope'])
-      elif r < 0.8:
+      elif r < 0.73:
         c = rng.choice(regs)
         ops.append(['call', c['sel'], [], []] if rng.random() < 0.7 else
                    ['callvia', '/'.join(ginm.gen_scope(rng, 2) + [c['sel']]), [], []])
-      elif r < 0.9 and depth > 0:
+      elif r < 0.82 and depth > 0:
         ops.append(['raise'] if rng.random() < 0.6 else ['raise', 'base'])     # 'base': a non-Exception exception
+      elif r < 0.95:
+        ops += self.gen_state_ops(rng, regs, depth, encl)
+        ops.append(['curscope'] if rng.random() < 0.5 else ['call', rng.choice(regs)['sel'], [], []])
       else:
         ops.append(['curscope'])
     ops.append(['curscope'])
@@ -166,6 +226,34 @@ class SeqEngine(Engine):
             fails.append(('wrong-composed-scope', 'entering %r under %r gave %r, expected %r' % (arg, b['scope'], seen, new)))
           if t['exc'] and t['depth'] >= 2:
             nontrivial = True
+    # the scope every op STARTS under is prescribed by the blocks that enclose it in the program text alone (compose() of the valid
+    # config_scope entries, outermost first): reading or changing the configuration -- clear_config, parse_config, bind_parameter,
+    # query_parameter, finalize, unlock_config ... -- is neither an entry nor an exit
+    encl, call_scopes, state_in_block = [], [], False      # encl: (depth of the block op, scope its body runs under)
+    for t in m.trace:
+      while encl and encl[-1][0] >= t['depth']:
+        encl.pop()
+      want = list(encl[-1][1]) if encl else []
+      if t['before']['scope'] != want:
+        fails.append(('scope-changed-without-entry-or-exit', 'op %r at depth %d starts under scope %r; the enclosing blocks prescribe %r' %
+                      (t['op'], t['depth'], t['before']['scope'], want)))
+      if t['kind'] == 'with':
+        arg = t['op'][1]
+        new, ok = compose(want, arg['value'] if isinstance(arg, dict) and 'captured' in arg else 5 if isinstance(arg, dict) else arg)
+        if ok:
+          encl.append((t['depth'], new))
+      elif t['kind'] in ('unlock', 'interactive'):
+        encl.append((t['depth'], want))
+      elif t['kind'] == 'call':
+        call_scopes.append(want)
+      elif t['kind'] in ('clear', 'bind', 'pbind', 'bindt', 'query', 'getbindings', 'finalize', 'dumpconfig', 'dumpoper', 'locked') and want:
+        state_in_block = True
+    if state_in_block:
+      tags.append('state-op-in-block')
+    if len(call_scopes) == len(m.calls):
+      for want, ctx in zip(call_scopes, m.calls):
+        if ctx['log_end'] > ctx['log_start'] and 'error' not in ctx and m.log[ctx['log_end'] - 1][1] != want:
+          fails.append(('call-scope', 'call of %r inside the blocks composing %r ran under %r' % (ctx['sel'], want, m.log[ctx['log_end'] - 1][1])))
     for ctx in m.calls:   # a direct call runs under the caller's scope
       if ctx['log_end'] > ctx['log_start'] and 'error' not in ctx:
         own = m.log[ctx['log_end'] - 1]
@@ -737,6 +825,15 @@ class DeferredWorker(threading.Thread):
       return [self.see(), self.want(self.ref[-1])]
     if k == 'observe':
       return [self.see(), self.want(self.ref[-1])]
+    if k == 'reload':                            # the body reloads the configuration: clear_config(), then the same bindings again
+      gin.clear_config(clear_constants=st[1] == 'constants')
+      mid = self.see()                           # (nothing is bound at this moment)
+      if st[1] == 'parse':
+        gin.parse_config('\n'.join('%sm.f.a = %d' % (sc + '/' if sc else '', v) for sc, v in self.store.items()))
+      else:
+        for sc, v in self.store.items():
+          gin.bind_parameter((sc, 'm.f', 'a'), v)
+      return [[mid, self.see()], [[list(self.ref[-1]), T('Unbound')], self.want(self.ref[-1])]]
     if k == 'defdec':                            # @gin.config_scope(arg) def <name>(): observe; <inner>(); observe
       deco = gin.config_scope(self.arg(st[1]))
 
@@ -846,6 +943,13 @@ class DeferredEngine(Engine):
                               [['observe'], ['enter', 'a'], ['observe'], ['make', 's1', 'b'], ['calldec', 'f', 1], ['exit', True],
                                ['calldec', 'f', 1], ['observe']]],
                   'schedule': [0, 0, 0, 1, 1, 1, 1, 1, 0, 0, 0, 1, 1, 1, 0, 0, 0]})
+    # a block body (also: of a deferred entry, of the other thread) reloads the configuration while blocks are open in both threads
+    cases.append({'bindings': self.B,
+                  'threads': [[['with', 's1'], ['make', 's3', 'a'], ['defdec', 's3', 'f', None], ['with', 's2'], ['reload', 'parse'], ['observe'],
+                               ['with', 's3'], ['exit', False], ['exit', True], ['observe'], ['exit', False], ['observe']],
+                              [['with', ['s2']], ['enter', 'a'], ['observe'], ['observe'], ['reload', 'bind'], ['calldec', 'f', 1], ['exit', False],
+                               ['exit', False], ['observe']]],
+                  'schedule': [0, 0, 0, 1, 1, 0, 0, 1, 0, 1, 1, 0, 0, 1, 0, 1, 0, 1, 0, 1, 0]})
     return cases
 
   def gen_arg(self, rng, invalid=True):
@@ -891,6 +995,8 @@ class DeferredEngine(Engine):
         steps.append(['calldec', pick(fns), rng.randint(1, 2)])
       elif r < 0.9:
         steps.append(['stack', [self.gen_arg(rng, invalid=rng.random() < 0.3) for _ in range(rng.randint(1, 4))], rng.random() < 0.3])
+      elif r < 0.95:
+        steps.append(['reload', rng.choice(['bind', 'parse', 'constants'])])
       else:
         steps.append(['observe'])
     return steps + [['observe']]
@@ -942,7 +1048,7 @@ class DeferredEngine(Engine):
         if got != want:
           kind = ('scope-not-restored' if st[0] == 'exit' else
                   'invalid-scope-accepted' if want == C.jsonable(T('Rejected')) else
-                  'wrong-composed-scope' if st[0] != 'observe' else 'scope-changed-without-entry-or-exit')
+                  'wrong-composed-scope' if st[0] not in ('observe', 'reload') else 'scope-changed-without-entry-or-exit')
           fails.append((kind, 'thread %d step %d %r observes (scope, m.f.a) = %r; the scope active in this thread at that moment and the '
                         'entry prescribe %r (program %r, schedule %r)' % (t, idx[t] - 1, st, got, want, case['threads'], case['schedule'])))
     deferred = sum(w.deferred for w in workers)
